@@ -353,7 +353,12 @@ class Parser(RstParser):
                     while isinstance(anchor.parent, nodes.TextElement):
                         anchor = anchor.parent
                     anchor.parent.insert(anchor.parent.index(anchor) + 1, warning)
-                    node.parent.remove(node)
+                    parent = node.parent
+                    parent.remove(node)
+                    if isinstance(parent, nodes.field_name) and not parent.children:
+                        # keep the name non-empty, as from any parser: docutils'
+                        # DocInfo transform reads the first child of the name
+                        parent.append(nodes.Text(""))
 
         self.finish_parse()
 
